@@ -1,11 +1,11 @@
 SPECIFICATION Spec
 CONSTANTS
-  MaxLen4 = 3
-  MaxLen3 = 4
-  MaxLen3b = 4
-  RcLen = 2
-  SeqLen = 2
-  Families = {"variants"}
+  MaxLen4 = 8
+  MaxLen3 = 10
+  MaxLen3b = 9
+  RcLen = 6
+  SeqLen = 4
+  Families = {"translate", "seq", "load", "names", "text", "table", "ctor", "variants", "pin"}
 INVARIANT InvOrfs
 INVARIANT InvSeq
 INVARIANT InvLoad
